@@ -125,6 +125,13 @@ func (m *bsim) moreOutputs(ctx context.Context, moduleSet bufmodule.ModuleSet, i
 			return fmt.Errorf("buf build on disk: %w", err)
 		}
 		res.outputs["cli-image"] = string(data)
+		// the image just written as the INPUT of another build, restricted to some of its files by --path
+		// flags in this execution's listing order (an image input is targeted by other code than sources)
+		if again, ok, err := m.cliBuildFromImage(ctx); err != nil {
+			return fmt.Errorf("buf build on the image: %w", err)
+		} else if ok {
+			res.outputs["cli-image-of-image"] = again
+		}
 		// and what `buf ls-files` and `buf lint` print for it
 		res.outputs["cli-ls-files"] = m.cliText(ctx, m.cliRoot, "ls-files", "--include-imports")
 		res.outputs["cli-lint"] = m.cliText(ctx, m.cliRoot, "lint", "--error-format", "json")
@@ -323,6 +330,17 @@ func (m *bsim) drawFilterTypes(ref map[string]*descriptorpb.FileDescriptorProto)
 			seen[s] = true
 			out = append(out, s)
 		}
+	}
+	// the head of a chain of extensions, alone: its known extensions drag in the rest of the chain
+	var heads []string
+	for _, name := range all {
+		if base := name[strings.LastIndex(name, ".")+1:]; strings.HasPrefix(base, "Chain") && strings.HasSuffix(base, "A") {
+			heads = append(heads, name)
+		}
+	}
+	if len(heads) > 0 && m.tp.Draw("filterchain", 2) == 1 {
+		m.s.Probe("filter-head-of-extension-chain")
+		return []string{heads[m.tp.Draw("filterchainidx", len(heads))]}
 	}
 	if len(pairs) > 0 && m.tp.Draw("filterpair", 3) != 0 {
 		pr := pairs[m.tp.Draw("filterpairidx", len(pairs))]
